@@ -48,6 +48,10 @@ def hex_specs(n):
     spec('sub', 'hex.sub {n}, a, b', [ft], lambda v: ({'a': (v['a'] - v['b']) & m}, ft), AB, 'dst[:n] -= src[:n]')
     spec('sub_self', 'hex.sub {n}, a, a', [ft], lambda v: ({'a': 0}, ft), A, 'dst -= dst')
     spec('add_constant', f'hex.add_constant {{n}}, a, {k3}', [ft], lambda v: ({'a': (v['a'] + k3) & m}, ft), A, 'dst[:n] += const')
+    for kc in sorted({0xF0 & m, 0x10 & m, 0x800 & m, 0x0F00 & m, (m + 1) >> 1} - {0}):
+        # constants whose low hexes are zero (the macro skips them) - also long ones that carry out of the top hex
+        spec(f'add_constant_{kc:x}', f'hex.add_constant {{n}}, a, {kc}', [ft], lambda v, kc=kc: ({'a': (v['a'] + kc) & m}, ft), A, 'dst[:n] += const (zero low hexes)')
+        spec(f'sub_constant_{kc:x}', f'hex.sub_constant {{n}}, a, {kc}', [ft], lambda v, kc=kc: ({'a': (v['a'] - kc) & m}, ft), A, 'dst[:n] -= const (zero low hexes)')
     spec('add_constant0', 'hex.add_constant {n}, a, 0', [ft], lambda v: ({}, ft), A, 'dst[:n] += 0')
     spec('sub_constant', f'hex.sub_constant {{n}}, a, {k4}', [ft], lambda v: ({'a': (v['a'] - k4) & m}, ft), A, 'dst[:n] -= const')
     if n > 1:
